@@ -192,6 +192,15 @@ func NumSpawned() int   { return 0 }
 func RunSpawned(i int)  {}
 func ExpectBlocked()    {}
 
+// AutoSchedule turns on the VM's run-to-completion scheduler: a goroutine started with `go`
+// runs (nested, to completion) when the running one would block. Natively inert.
+func AutoSchedule() {}
+
+// Schedule turns on the VM's interleaving scheduler: every `go` statement starts a VM thread,
+// threads switch at synchronisation operations, every schedule with at most `preemptions`
+// preemptive switches is explored. Natively inert (the Go runtime schedules).
+func Schedule(preemptions int) {}
+
 // ---------------------------------------------------------------- native driver
 
 type job struct {
